@@ -1,6 +1,8 @@
 import Pyunicorn.Lemmas.CrossNsiWhole
 import Pyunicorn.Lemmas.CrossR4
 import Pyunicorn.Lemmas.CrossBetw
+import Pyunicorn.Lemmas.CrossCCN
+import Pyunicorn.Model.CrossISRN
 import Mathlib.Algebra.Order.BigOperators.Group.List
 import Pyunicorn.Generated.ArithC11
 import Pyunicorn.Generated.StructC11
@@ -2523,5 +2525,638 @@ example : (block (distQ 4 (fun a b => a + 1 == b && b < 3 || b + 1 == a && a < 3
     = [[some 2, none], [none, some 0]] := by decide +kernel
 
 end Unweighted
+
+/-! ## Round 5 — bipartitions of the node set and the layer wrappers of `CoupledClimateNetwork`
+
+`Pyunicorn.CrossCCN` (`Model/CrossCCN.lean`) is the model of
+`climate/coupled_climate_network.py:105-113, 143-639`: the two node lists of the constructor and
+every public wrapper as the routing of `nodes_1` / `nodes_2` into the methods modelled above.
+It is tied to the code by the request `ccn` of the driver (every wrapper of every generated
+coupled network, exact) and by `ccn_wrappers_as_modelled` below (regenerated source text).
+
+The decomposition theorems hold for **every** bipartition `(L1, L2)` of the node set in any
+order: the single-network quantity is the sum of the internal and the cross quantity — the
+two-group counterpart of "both groups = the whole node set reproduces the single-network
+measure". -/
+
+section Round5
+open Pyunicorn.CrossCCN
+
+
+theorem outdegree_decomposition (A : Adj) (n : Nat) (L1 L2 : List Nat)
+    (h : (L1 ++ L2).Perm (List.range n)) :
+    List.zipWith (· + ·) (crossOutDegree A L1 L1) (crossOutDegree A L1 L2)
+      = L1.map (Net.outdeg n A) := by
+  simp only [crossOutDegree, rowSums, blockN, block, List.map_map, Function.comp_def]
+  rw [zipWith_map_self]
+  apply List.map_congr_left
+  intro a _
+  have := sum_bipartition h (fun b => b2n (A a b))
+  rw [← this]
+  rfl
+
+theorem indegree_decomposition (A : Adj) (n : Nat) (L1 L2 : List Nat)
+    (h : (L1 ++ L2).Perm (List.range n)) :
+    List.zipWith (· + ·) (crossInDegree A L1 L1) (crossInDegree A L1 L2)
+      = L1.map (Net.indeg n A) := by
+  rw [crossInDegree_eq, crossInDegree_eq, zipWith_map_self]
+  apply List.map_congr_left
+  intro a _
+  have := sum_bipartition h (fun b => b2n (A b a))
+  rw [← this]
+  rfl
+
+theorem degree_decomposition (directed : Bool) (A : Adj) (n : Nat) (L1 L2 : List Nat)
+    (h : (L1 ++ L2).Perm (List.range n)) :
+    List.zipWith (· + ·) (crossDegree directed A L1 L1) (crossDegree directed A L1 L2)
+      = L1.map (Net.degree directed n A) := by
+  have ho := outdegree_decomposition A n L1 L2 h
+  have hi := indegree_decomposition A n L1 L2 h
+  unfold crossDegree Net.degree
+  cases directed
+  · simpa using ho
+  · simp only [if_true]
+    have hlen1 : (crossInDegree A L1 L1).length = L1.length := by
+      rw [crossInDegree_eq]; simp
+    have hlen2 : (crossInDegree A L1 L2).length = L1.length := by
+      rw [crossInDegree_eq]; simp
+    have hlen3 : (crossOutDegree A L1 L1).length = L1.length := by
+      simp [crossOutDegree, rowSums, blockN, block]
+    have hlen4 : (crossOutDegree A L1 L2).length = L1.length := by
+      simp [crossOutDegree, rowSums, blockN, block]
+    apply List.ext_getElem
+    · simp [hlen1, hlen2, hlen3, hlen4]
+    · intro i h1 h2
+      have e1 := congrArg (fun l => l[i]?) ho
+      have e2 := congrArg (fun l => l[i]?) hi
+      simp only [List.length_zipWith, hlen1, hlen2, hlen3, hlen4, Nat.min_self] at h1
+      simp only [List.getElem?_zipWith, List.getElem?_map] at e1 e2
+      simp only [List.getElem_zipWith, List.getElem_map]
+      rw [List.getElem?_eq_getElem (by omega), List.getElem?_eq_getElem (by omega),
+        List.getElem?_eq_getElem (by omega)] at e1 e2
+      simp at e1 e2
+      omega
+
+/-- **n.s.i. degree of the whole network = n.s.i. internal degree + n.s.i. cross degree** of the
+node's own group and the other group of a bipartition (the unit diagonal of `A⁺` is counted once,
+in the internal part) -/
+theorem nsi_degree_decomposition (A : Adj) (w : Nat → Rat) (n : Nat) (L1 L2 : List Nat)
+    (h : (L1 ++ L2).Perm (List.range n)) :
+    List.zipWith (· + ·) (nsiCrossDegree A w L1 L1) (nsiCrossDegree A w L1 L2)
+      = L1.map (Net.nsiOutdeg n A w) := by
+  unfold nsiCrossDegree
+  rw [zipWith_map_self]
+  apply List.map_congr_left
+  intro a _
+  have := sum_bipartition h (fun b => if aplus A a b then w b else 0)
+  rw [← this]
+  rfl
+
+/-- internal block of an undirected loop-free network: the entries sum to twice the number of
+linked unordered pairs of the group -/
+theorem internal_sum_even (A : Adj) (hA : Symm A) (hloop : ∀ a, A a a = false) (L : List Nat) :
+    (rowSums (blockN A L L)).sum = 2 * pairSum (fun a b => b2n (A a b)) L := by
+  have hs : ∀ a b, (fun a b => b2n (A a b)) a b = (fun a b => b2n (A a b)) b a := by
+    intro a b
+    simp only [hA a b]
+  have hd := double_sum_symm_nat _ hs L
+  have hz : (L.map fun a => (fun a b => b2n (A a b)) a a).sum = 0 := by
+    apply List.sum_eq_zero
+    intro x hx
+    simp only [List.mem_map] at hx
+    obtain ⟨a, _, rfl⟩ := hx
+    simp [hloop a, b2n]
+  rw [hz, Nat.zero_add] at hd
+  simp only [rowSums, blockN, block, List.map_map, Function.comp_def]
+  exact hd
+
+theorem numberInternalLinks_eq_pairs (A : Adj) (hA : Symm A) (hloop : ∀ a, A a a = false)
+    (L : List Nat) :
+    numberInternalLinks false A L = pairSum (fun a b => b2n (A a b)) L := by
+  unfold numberInternalLinks internalAdjacency
+  simp [internal_sum_even A hA hloop L]
+
+/-- the non-zero entries of the adjacency matrix split into the four blocks of a bipartition -/
+theorem nonzeros_decomposition (A : Adj) (n : Nat) (L1 L2 : List Nat)
+    (h : (L1 ++ L2).Perm (List.range n)) :
+    netNonzeros n A = (rowSums (blockN A L1 L1)).sum + (rowSums (blockN A L1 L2)).sum
+      + (rowSums (blockN A L2 L1)).sum + (rowSums (blockN A L2 L2)).sum := by
+  rw [← whole_nonzeros A n (L1 ++ L2) h]
+  simp only [rowSums, blockN, block, List.map_map, Function.comp_def, List.map_append,
+    List.sum_append, List.sum_map_add]
+  omega
+
+/-- **the links of the whole network are the links inside the two groups plus the links between
+them** (undirected loop-free network, `(L1, L2)` any bipartition of the node set in any order):
+`Network.n_links = number_internal_links(L1) + number_internal_links(L2) +
+number_cross_links(L1, L2)` -/
+theorem n_links_decomposition (A : Adj) (hA : Symm A) (hloop : ∀ a, A a a = false) (n : Nat)
+    (L1 L2 : List Nat) (h : (L1 ++ L2).Perm (List.range n)) :
+    netNLinks false n A
+      = numberInternalLinks false A L1 + numberInternalLinks false A L2 + numberCrossLinks A L1 L2 := by
+  have hd := nonzeros_decomposition A n L1 L2 h
+  have hsym : (rowSums (blockN A L2 L1)).sum = (rowSums (blockN A L1 L2)).sum :=
+    numberCrossLinks_symm A hA L2 L1
+  rw [numberInternalLinks_eq_pairs A hA hloop, numberInternalLinks_eq_pairs A hA hloop]
+  rw [internal_sum_even A hA hloop L1, internal_sum_even A hA hloop L2, hsym] at hd
+  unfold netNLinks numberCrossLinks
+  simp only [Bool.false_eq_true, if_false]
+  omega
+
+/-- directed version: every link is inside a group or runs from one group to the other -/
+theorem n_links_decomposition_directed (A : Adj) (n : Nat) (L1 L2 : List Nat)
+    (h : (L1 ++ L2).Perm (List.range n)) :
+    netNLinks true n A
+      = numberInternalLinks true A L1 + numberInternalLinks true A L2
+        + ((crossOutDegree A L1 L2).sum + (crossOutDegree A L2 L1).sum) := by
+  have hd := nonzeros_decomposition A n L1 L2 h
+  unfold netNLinks numberInternalLinks internalAdjacency crossOutDegree
+  simp only [if_true]
+  omega
+
+example : netNLinks false 4 (fun a b => (a + b) % 2 == 1 || a + b == 2 && a != b)
+    = numberInternalLinks false (fun a b => (a + b) % 2 == 1 || a + b == 2 && a != b) [2, 0]
+      + numberInternalLinks false (fun a b => (a + b) % 2 == 1 || a + b == 2 && a != b) [3, 1]
+      + numberCrossLinks (fun a b => (a + b) % 2 == 1 || a + b == 2 && a != b) [2, 0] [3, 1] := by
+  decide
+
+/-- the finite path lengths / the unreachable pairs of the whole node set split into the four
+blocks of a partition into two lists -/
+theorem path_blocks_append (D : Dist) (L1 L2 : List Nat) :
+    sumFinite (block D (L1 ++ L2) (L1 ++ L2))
+        = sumFinite (block D L1 L1) + sumFinite (block D L1 L2)
+          + sumFinite (block D L2 L1) + sumFinite (block D L2 L2)
+    ∧ countNone (block D (L1 ++ L2) (L1 ++ L2))
+        = countNone (block D L1 L1) + countNone (block D L1 L2)
+          + countNone (block D L2 L1) + countNone (block D L2 L2) := by
+  constructor
+  · simp only [sumFinite_eq, List.map_append, List.sum_append, List.sum_map_add]
+    ring
+  · simp only [countNone_eq, List.map_append, List.sum_append, List.sum_map_add]
+    omega
+
+/-- **`Network.average_path_length(link_attribute)` is the pooled mean of the internal and cross
+path lengths** of any bipartition `(L1, L2)` of the node set (lists in any order, any distance
+matrix, directed or not): the sum of the finite entries of the four blocks divided by
+`N(N−1)` minus their numbers of unreachable pairs — the numerators and the `inf` counts of
+`internal_average_path_length(L1)`, `(L2)`, `cross_average_path_length(L1, L2)`, `(L2, L1)`;
+`nan` iff no ordered pair of different nodes is connected. -/
+theorem apl_decomposition (D : Dist) (n : Nat) (L1 L2 : List Nat)
+    (h : (L1 ++ L2).Perm (List.range n)) :
+    Net.avgPathLength n D
+      = (let S := sumFinite (block D L1 L1) + sumFinite (block D L1 L2)
+            + sumFinite (block D L2 L1) + sumFinite (block D L2 L2)
+         let U := countNone (block D L1 L1) + countNone (block D L1 L2)
+            + countNone (block D L2 L1) + countNone (block D L2 L2)
+         let norm : Int := ((n : Int) - 1) * n - (U : Nat)
+         if norm = 0 then none else some (S / (norm : Rat))) := by
+  rw [← whole_average_path_length D n (L1 ++ L2) h]
+  have hl : (L1 ++ L2).length = n := by simpa using h.length_eq
+  obtain ⟨hs, hc⟩ := path_blocks_append D L1 L2
+  unfold internalAPL generalAPL
+  simp only [if_true, hl, hs, hc]
+
+example : Net.avgPathLength 3 (fun a b => if a = b then some 0 else if a + b = 1 then some 2 else none)
+    = some 2 := by decide +kernel
+
+/-! ### the two layers of a `CoupledClimateNetwork` -/
+
+/-- **the node lists the constructor builds are a bipartition of the node set**
+(`nodes_1 = list(range(N_1))`, `nodes_2 = list(range(N_1, N))`, `N_1 ≤ N`): together they are
+`0 … N−1` in order, they are disjoint and duplicate-free, every index is a valid node number, and
+their lengths are `N_1` and `N − N_1 = N_2`.  So every theorem about disjoint groups and — for
+`nodes_1 + nodes_2` — every whole-network limit applies to the layers. -/
+theorem ccn_layers (N1 N : Nat) (h : N1 ≤ N) :
+    nodes1 N1 ++ nodes2 N1 N = List.range N
+    ∧ (∀ a ∈ nodes1 N1, a ∉ nodes2 N1 N)
+    ∧ (nodes1 N1).Nodup ∧ (nodes2 N1 N).Nodup
+    ∧ (∀ a ∈ nodes1 N1 ++ nodes2 N1 N, a < N)
+    ∧ (nodes1 N1).length = N1 ∧ (nodes2 N1 N).length = N - N1 := by
+  refine ⟨layers_cover h, ?_, nodes1_nodup N1, nodes2_nodup N1 N, ?_, nodes1_length N1,
+    nodes2_length N1 N⟩
+  · intro a ha hb
+    rw [mem_nodes1] at ha
+    rw [mem_nodes2] at hb
+    omega
+  · intro a ha
+    rw [layers_cover h] at ha
+    exact List.mem_range.mp ha
+
+example : nodes1 2 ++ nodes2 2 5 = [0, 1, 2, 3, 4] ∧ nodes2 2 5 = [2, 3, 4] := by decide
+
+/-- the seeded change C11-7 (`range(N_2, N)` for the second layer) is not a bipartition as soon as
+the layers differ in size: for `N_1 = 1, N_2 = 2` it drops node 1 -/
+example : nodes1 1 ++ List.range' 2 (3 - 2) ≠ List.range 3 := by decide
+
+theorem ccn_layers_perm (N1 N : Nat) (h : N1 ≤ N) :
+    (nodes1 N1 ++ nodes2 N1 N).Perm (List.range N) := by rw [layers_cover h]
+
+theorem ccn_layers_perm' (N1 N : Nat) (h : N1 ≤ N) :
+    (nodes2 N1 N ++ nodes1 N1).Perm (List.range N) :=
+  List.perm_append_comm.trans (ccn_layers_perm N1 N h)
+
+/-- **slices and index lists select the same blocks**: `similarity_measure()[:N_1, :N_1]`,
+`[N_1:, N_1:]`, `[:N_1, N_1:]` are the blocks `(nodes_1, nodes_1)`, `(nodes_2, nodes_2)`,
+`(nodes_1, nodes_2)` that `adjacency_1/2`, `cross_layer_adjacency`, the path-length and the
+distance wrappers cut with the node lists -/
+theorem ccn_slices_are_layer_blocks {α : Type} (S : Nat → Nat → α) (N1 N : Nat) (h : N1 ≤ N) :
+    similarityMeasure1 S N1 N = block S (nodes1 N1) (nodes1 N1)
+    ∧ similarityMeasure2 S N1 N = block S (nodes2 N1 N) (nodes2 N1 N)
+    ∧ crossSimilarityMeasure S N1 N = block S (nodes1 N1) (nodes2 N1 N) := by
+  simp only [similarityMeasure1, similarityMeasure2, crossSimilarityMeasure, sliceTo_eq h,
+    sliceFrom_eq h, and_self]
+
+/-- entries of the three layer blocks of any matrix of the coupled network: within layer 1
+`M[i, j]`, within layer 2 `M[N_1 + i, N_1 + j]`, across `M[i, N_1 + j]` -/
+theorem ccn_block_entries {α : Type} (M : Nat → Nat → α) (N1 N : Nat) :
+    (∀ i j, i < N1 → j < N1 →
+      ((block M (nodes1 N1) (nodes1 N1))[i]?.bind (·[j]?)) = some (M i j))
+    ∧ (∀ i j, i < N - N1 → j < N - N1 →
+      ((block M (nodes2 N1 N) (nodes2 N1 N))[i]?.bind (·[j]?)) = some (M (N1 + i) (N1 + j)))
+    ∧ (∀ i j, i < N1 → j < N - N1 →
+      ((block M (nodes1 N1) (nodes2 N1 N))[i]?.bind (·[j]?)) = some (M i (N1 + j))) := by
+  refine ⟨?_, ?_, ?_⟩ <;> intro i j hi hj <;> simp [block, nodes1, nodes2, hi, hj]
+
+example : crossLayerAdjacency (fun a b => a + 2 == b) 2 5 = [[1, 0, 0], [0, 1, 0]]
+    ∧ adjacency2 (fun a b => a + 2 == b) 2 5 = [[0, 0, 1], [0, 0, 0], [0, 0, 0]] := by decide
+
+/-- **`Network.n_links` of the coupled network = links within layer 1 + links within layer 2 +
+links between the layers** — the three link counts the wrappers return, on every undirected
+loop-free coupled network -/
+theorem ccn_n_links (A : Adj) (hA : Symm A) (hloop : ∀ a, A a a = false) (N1 N : Nat)
+    (h : N1 ≤ N) :
+    netNLinks false N A
+      = (CrossCCN.numberInternalLinks false A N1 N).1 + (CrossCCN.numberInternalLinks false A N1 N).2
+        + numberCrossLayerLinks A N1 N :=
+  n_links_decomposition A hA hloop N _ _ (ccn_layers_perm N1 N h)
+
+/-- **`internal_degree() + cross_degree()`, layer 1 followed by layer 2, is `Network.degree()`**
+of the coupled network, directed or not -/
+theorem ccn_degree (directed : Bool) (A : Adj) (N1 N : Nat) (h : N1 ≤ N) :
+    List.zipWith (· + ·) (CrossCCN.internalDegree directed A N1 N).1 (CrossCCN.crossDegree directed A N1 N).1
+      ++ List.zipWith (· + ·) (CrossCCN.internalDegree directed A N1 N).2
+          (CrossCCN.crossDegree directed A N1 N).2
+      = (List.range N).map (Net.degree directed N A) := by
+  simp only [CrossCCN.internalDegree, CrossCCN.crossDegree]
+  rw [degree_decomposition directed A N _ _ (ccn_layers_perm N1 N h),
+    degree_decomposition directed A N _ _ (ccn_layers_perm' N1 N h), ← List.map_append,
+    layers_cover h]
+
+/-- **hand-shake between the layers**: on an undirected coupled network both components of
+`cross_degree()` sum to `number_cross_layer_links()` -/
+theorem ccn_cross_degree_handshake (A : Adj) (hA : Symm A) (N1 N : Nat) :
+    (CrossCCN.crossDegree false A N1 N).1.sum = numberCrossLayerLinks A N1 N
+    ∧ (CrossCCN.crossDegree false A N1 N).2.sum = numberCrossLayerLinks A N1 N := by
+  constructor
+  · rfl
+  · unfold numberCrossLayerLinks
+    rw [numberCrossLinks_symm A hA]
+    rfl
+
+/-- **the wrappers that evaluate one order of the layers only lose nothing**: on an undirected
+coupled network `number_cross_layer_links`, `cross_link_density` and
+`cross_average_path_length` have the same value for the order `(nodes_2, nodes_1)` -/
+theorem ccn_one_order_suffices (A : Adj) (hA : Symm A) (D : Dist) (hD : Symm D) (N1 N : Nat) :
+    numberCrossLayerLinks A N1 N = numberCrossLinks A (nodes2 N1 N) (nodes1 N1)
+    ∧ CrossCCN.crossLinkDensity A N1 N = Cross.crossLinkDensity A (nodes2 N1 N) (nodes1 N1)
+    ∧ CrossCCN.crossAPL D N1 N = Cross.crossAPL D (nodes2 N1 N) (nodes1 N1) :=
+  ⟨numberCrossLinks_symm A hA _ _, crossLinkDensity_symm A hA _ _, crossAPL_symm D hD _ _⟩
+
+theorem crossBetweenness_length (n : Nat) (A : Adj) (L1 L2 : List Nat) :
+    (Cross.crossBetweenness n A L1 L2).length = n := by
+  unfold Cross.crossBetweenness
+  rw [nsiBetweenness_entry]
+  simp
+
+/-- **cutting the betweenness vector into the layers loses nothing and reads no default**:
+`(cb[nodes_1], cb[nodes_2])` concatenated is `cross_betweenness(nodes_1, nodes_2)` over all `N`
+nodes; likewise for `internal_betweenness_1/2` -/
+theorem ccn_betweenness_split (A : Adj) (N1 N : Nat) (h : N1 ≤ N) :
+    (CrossCCN.crossBetweenness A N1 N).1 ++ (CrossCCN.crossBetweenness A N1 N).2
+        = Cross.crossBetweenness N A (nodes1 N1) (nodes2 N1 N)
+    ∧ (internalBetweenness1 A N1 N).1 ++ (internalBetweenness1 A N1 N).2
+        = Cross.internalBetweenness N A (nodes1 N1)
+    ∧ (internalBetweenness2 A N1 N).1 ++ (internalBetweenness2 A N1 N).2
+        = Cross.internalBetweenness N A (nodes2 N1 N) := by
+  refine ⟨?_, ?_, ?_⟩
+  · exact pick_cover h _ (crossBetweenness_length N A _ _)
+  · exact pick_cover h _ (crossBetweenness_length N A _ _)
+  · exact pick_cover h _ (crossBetweenness_length N A _ _)
+
+
+theorem cald_entry (L : List Nat) (sel : Nat → Bool) (g : Nat → Rat) :
+    (if (L.map fun b => ((b2n (sel b) : Nat) : Rat)).sum = 0 then none
+      else some ((L.map fun b => ((b2n (sel b) : Nat) : Rat) * g b).sum
+        / (L.map fun b => ((b2n (sel b) : Nat) : Rat)).sum))
+    = (if (L.map fun b => b2n (sel b)).sum = 0 then none
+      else some ((L.map fun b => if sel b then g b else 0).sum
+        / (((L.map fun b => b2n (sel b)).sum : Nat) : Rat))) := by
+  rw [sum_cast_nat (fun b => b2n (sel b)) L]
+  have e : (L.map fun b => ((b2n (sel b) : Nat) : Rat) * g b)
+      = L.map fun b => if sel b then g b else 0 := by
+    apply List.map_congr_left
+    intro b _
+    cases sel b <;> simp [b2n]
+  rw [e]
+  simp only [Nat.cast_eq_zero]
+
+/-- **`cross_average_link_distance` by definition**: entry `a` (a node of layer 1) is the mean of
+the distances `G[a, b]` over the nodes `b` of layer 2 linked from `a` — their number is
+`cross_outdegree(nodes_1, nodes_2)[a]` — and `nan` for a node without such link; with
+`reverse=True` entry `b` (a node of layer 2) is the mean over the nodes `a` of layer 1 with a
+link `a → b` (on an undirected network: the cross neighbours of `b`).  The axis arithmetic
+(`ax = 0 if reverse else 1`, numerator and denominator summed along the same axis) is the subject. -/
+theorem ccn_cross_average_link_distance_eq_def (A : Adj) (G : Nat → Nat → Rat) (N1 N : Nat) :
+    crossAverageLinkDistance false A G N1 N = (nodes1 N1).map (fun a =>
+        if ((nodes2 N1 N).map fun b => b2n (A a b)).sum = 0 then none
+        else some (((nodes2 N1 N).map fun b => if A a b then G a b else 0).sum
+          / ((((nodes2 N1 N).map fun b => b2n (A a b)).sum : Nat) : Rat)))
+    ∧ crossAverageLinkDistance true A G N1 N = (nodes2 N1 N).map (fun b =>
+        if ((nodes1 N1).map fun a => b2n (A a b)).sum = 0 then none
+        else some (((nodes1 N1).map fun a => if A a b then G a b else 0).sum
+          / ((((nodes1 N1).map fun a => b2n (A a b)).sum : Nat) : Rat))) := by
+  unfold crossAverageLinkDistance crossLayerAdjacency crossLinkDistance blockN block
+  generalize nodes1 N1 = L1
+  generalize nodes2 N1 N = L2
+  have hprod : List.zipWith (fun ra rc => List.zipWith (fun (x : Nat) (c : Rat) => (x : Rat) * c) ra rc)
+      (L1.map fun a => L2.map fun b => b2n (A a b)) (L1.map fun a => L2.map fun b => G a b)
+      = L1.map fun a => L2.map fun b => ((b2n (A a b) : Nat) : Rat) * G a b := by
+    rw [zipWith_map_self]
+    apply List.map_congr_left
+    intro a _
+    rw [zipWith_map_self]
+  have hadj : ((L1.map fun a => L2.map fun b => b2n (A a b)).map
+        fun r => r.map fun (x : Nat) => (x : Rat))
+      = L1.map fun a => L2.map fun b => ((b2n (A a b) : Nat) : Rat) := by
+    simp only [List.map_map, Function.comp_def]
+  simp only [hprod, hadj]
+  constructor
+  · simp only [Bool.false_eq_true, if_false, rowSums, List.map_map, Function.comp_def]
+    rw [zipWith_map_self]
+    apply List.map_congr_left
+    intro a _
+    exact cald_entry L2 (fun b => A a b) (fun b => G a b)
+  · simp only [if_true]
+    rw [colSums_map, colSums_map, zipWith_map_self]
+    apply List.map_congr_left
+    intro b _
+    exact cald_entry L1 (fun a => A a b) (fun a => G a b)
+
+example : crossAverageLinkDistance false (fun a b => a + 2 == b || a == 0 && b == 3)
+      (fun a b => (a + b : Nat)) 2 5 = [some (5 / 2), some 4]
+    ∧ crossAverageLinkDistance true (fun a b => a + 2 == b || a == 0 && b == 3)
+      (fun a b => (a + b : Nat)) 2 5 = [some 2, some (7 / 2), none] := by decide +kernel
+
+
+open Pyunicorn.Generated in
+/-- **about the regenerated source of `CoupledClimateNetwork`**: the constructor sets
+`N_1 = len(lat_1)`, `N_2 = len(lat_2)`, `nodes_1 = list(range(N_1))`,
+`nodes_2 = list(range(N_1, N))` (`nodes1`, `nodes2`) and initialises `InteractingNetworks` with its
+own adjacency, directedness and node weights; every wrapper consists of exactly these assignments,
+this one `if` (`ax = 0 if reverse else 1`) and these `return`s — the routing of the two node
+lists, the order of the pairs `(layer 1, layer 2)` / `(1→2, 2→1)`, the three slices of the
+similarity matrix and the cut `(v[nodes_1], v[nodes_2])` that `Pyunicorn.CrossCCN` mirrors; there
+is no loop, augmented assignment or `try` in any wrapper (the translator refuses them).  The
+seeded change C11-7 (`range(self.N_2, self.N)`) makes this false. -/
+theorem ccn_wrappers_as_modelled :
+    StructC11.ccnFacts = [
+  ("__init__.self.N", "grid.N"),
+  ("__init__.self.N_1", "len(lat_1)"),
+  ("__init__.self.N_2", "len(lat_2)"),
+  ("__init__.self.nodes_1", "list(range(self.N_1))"),
+  ("__init__.self.nodes_2", "list(range(self.N_1, self.N))"),
+  ("__init__.InteractingNetworks.__init__", "self, self.adjacency, directed=self.directed, node_weights=self.node_weights"),
+  ("network_1.return", "GeoNetwork(adjacency=self.adjacency_1(), grid=self.grid_1, directed=self.directed, node_weight_type=self.node_weight_type, silence_level=self.silence_level)"),
+  ("network_2.return", "GeoNetwork(adjacency=self.adjacency_2(), grid=self.grid_2, directed=self.directed, node_weight_type=self.node_weight_type, silence_level=self.silence_level)"),
+  ("similarity_measure_1.return", "self.similarity_measure()[:self.N_1, :self.N_1]"),
+  ("similarity_measure_2.return", "self.similarity_measure()[self.N_1:, self.N_1:]"),
+  ("cross_similarity_measure.return", "self.similarity_measure()[:self.N_1, self.N_1:]"),
+  ("adjacency_1.return", "self.internal_adjacency(self.nodes_1)"),
+  ("adjacency_2.return", "self.internal_adjacency(self.nodes_2)"),
+  ("cross_layer_adjacency.return", "self.cross_adjacency(node_list1=self.nodes_1, node_list2=self.nodes_2)"),
+  ("path_lengths_1.return", "self.internal_path_lengths(node_list=self.nodes_1, link_attribute=link_attribute)"),
+  ("path_lengths_2.return", "self.internal_path_lengths(node_list=self.nodes_2, link_attribute=link_attribute)"),
+  ("cross_path_lengths.return", "InteractingNetworks.cross_path_lengths(self, node_list1=self.nodes_1, node_list2=self.nodes_2, link_attribute=link_attribute)"),
+  ("cross_link_distance.return", "self.distance()[self.nodes_1, :][:, self.nodes_2]"),
+  ("number_cross_layer_links.return", "self.number_cross_links(node_list1=self.nodes_1, node_list2=self.nodes_2)"),
+  ("number_internal_links.n_links_1", "InteractingNetworks.number_internal_links(self, self.nodes_1)"),
+  ("number_internal_links.n_links_2", "InteractingNetworks.number_internal_links(self, self.nodes_2)"),
+  ("number_internal_links.return", "(n_links_1, n_links_2)"),
+  ("cross_link_density.return", "InteractingNetworks.cross_link_density(self, node_list1=self.nodes_1, node_list2=self.nodes_2)"),
+  ("internal_link_density.density_1", "InteractingNetworks.internal_link_density(self, self.nodes_1)"),
+  ("internal_link_density.density_2", "InteractingNetworks.internal_link_density(self, self.nodes_2)"),
+  ("internal_link_density.return", "(density_1, density_2)"),
+  ("internal_global_clustering.clustering_1", "InteractingNetworks.internal_global_clustering(self, self.nodes_1)"),
+  ("internal_global_clustering.clustering_2", "InteractingNetworks.internal_global_clustering(self, self.nodes_2)"),
+  ("internal_global_clustering.return", "(clustering_1, clustering_2)"),
+  ("cross_global_clustering.cc_12", "InteractingNetworks.cross_global_clustering(self, node_list1=self.nodes_1, node_list2=self.nodes_2)"),
+  ("cross_global_clustering.cc_21", "InteractingNetworks.cross_global_clustering(self, node_list1=self.nodes_2, node_list2=self.nodes_1)"),
+  ("cross_global_clustering.return", "(cc_12, cc_21)"),
+  ("cross_transitivity.ct_12", "InteractingNetworks.cross_transitivity(self, node_list1=self.nodes_1, node_list2=self.nodes_2)"),
+  ("cross_transitivity.ct_21", "InteractingNetworks.cross_transitivity(self, node_list1=self.nodes_2, node_list2=self.nodes_1)"),
+  ("cross_transitivity.return", "(ct_12, ct_21)"),
+  ("cross_average_link_distance.if", "reverse"),
+  ("cross_average_link_distance.then", "ax = 0"),
+  ("cross_average_link_distance.else", "ax = 1"),
+  ("cross_average_link_distance.adj", "self.cross_layer_adjacency()"),
+  ("cross_average_link_distance.cld", "self.cross_link_distance()"),
+  ("cross_average_link_distance.return", "np.sum(adj * cld, axis=ax) / np.sum(adj, axis=ax)"),
+  ("cross_average_link_distance.ax", "0"),
+  ("cross_average_link_distance.ax", "1"),
+  ("cross_average_path_length.return", "InteractingNetworks.cross_average_path_length(self, node_list1=self.nodes_1, node_list2=self.nodes_2, link_attribute=link_attribute)"),
+  ("internal_average_path_length.apl_1", "InteractingNetworks.internal_average_path_length(self, node_list=self.nodes_1, link_attribute=link_attribute)"),
+  ("internal_average_path_length.apl_2", "InteractingNetworks.internal_average_path_length(self, node_list=self.nodes_2, link_attribute=link_attribute)"),
+  ("internal_average_path_length.return", "(apl_1, apl_2)"),
+  ("cross_degree.cross_degree_1", "InteractingNetworks.cross_degree(self, node_list1=self.nodes_1, node_list2=self.nodes_2)"),
+  ("cross_degree.cross_degree_2", "InteractingNetworks.cross_degree(self, node_list1=self.nodes_2, node_list2=self.nodes_1)"),
+  ("cross_degree.return", "(cross_degree_1, cross_degree_2)"),
+  ("internal_degree.degree_1", "InteractingNetworks.internal_degree(self, node_list=self.nodes_1)"),
+  ("internal_degree.degree_2", "InteractingNetworks.internal_degree(self, node_list=self.nodes_2)"),
+  ("internal_degree.return", "(degree_1, degree_2)"),
+  ("cross_local_clustering.cc_12", "InteractingNetworks.cross_local_clustering(self, node_list1=self.nodes_1, node_list2=self.nodes_2)"),
+  ("cross_local_clustering.cc_21", "InteractingNetworks.cross_local_clustering(self, node_list1=self.nodes_2, node_list2=self.nodes_1)"),
+  ("cross_local_clustering.return", "(cc_12, cc_21)"),
+  ("cross_closeness.cc_12", "InteractingNetworks.cross_closeness(self, node_list1=self.nodes_1, node_list2=self.nodes_2, link_attribute=link_attribute)"),
+  ("cross_closeness.cc_21", "InteractingNetworks.cross_closeness(self, node_list1=self.nodes_2, node_list2=self.nodes_1, link_attribute=link_attribute)"),
+  ("cross_closeness.return", "(cc_12, cc_21)"),
+  ("internal_closeness.closeness_1", "InteractingNetworks.internal_closeness(self, node_list=self.nodes_1, link_attribute=link_attribute)"),
+  ("internal_closeness.closeness_2", "InteractingNetworks.internal_closeness(self, node_list=self.nodes_2, link_attribute=link_attribute)"),
+  ("internal_closeness.return", "(closeness_1, closeness_2)"),
+  ("cross_betweenness.cb", "InteractingNetworks.cross_betweenness(self, node_list1=self.nodes_1, node_list2=self.nodes_2)"),
+  ("cross_betweenness.return", "(cb[self.nodes_1], cb[self.nodes_2])"),
+  ("internal_betweenness_1.ib", "self.internal_betweenness(self.nodes_1)"),
+  ("internal_betweenness_1.return", "(ib[self.nodes_1], ib[self.nodes_2])"),
+  ("internal_betweenness_2.ib", "self.internal_betweenness(self.nodes_2)"),
+  ("internal_betweenness_2.return", "(ib[self.nodes_1], ib[self.nodes_2])")] := by
+  decide +kernel
+
+end Round5
+
+/-! ### `InterSystemRecurrenceNetwork`: the network assembled from recurrence matrices
+
+`Pyunicorn.CrossISRN` (`Model/CrossISRN.lean`) is the model of
+`timeseries/inter_system_recurrence_network.py:166-174, 226-282, 344-394`; tied to the code by
+the request `isrn` of the driver and by `isrn_as_modelled`. -/
+
+section ISRN
+open Pyunicorn.CrossCCN Pyunicorn.CrossISRN
+
+/-- **`flat[::N + 1]` of an `N × N` array is its diagonal**: the flat position `i·N + j`
+(`i, j < N`) is a multiple of `N + 1` exactly when `i = j` -/
+theorem flat_stride_is_diagonal (N i j : Nat) (hi : i < N) (hj : j < N) :
+    (i * N + j) % (N + 1) = 0 ↔ i = j := by
+  by_cases hle : i ≤ j
+  · have e : i * N + j = (j - i) + (N + 1) * i := by
+      rw [Nat.mul_comm (N + 1) i, Nat.mul_succ]
+      omega
+    rw [e, Nat.add_mul_mod_self_left, Nat.mod_eq_of_lt (by omega)]
+    omega
+  · obtain ⟨k, rfl⟩ : ∃ k, i = k + 1 := ⟨i - 1, by omega⟩
+    have e : (k + 1) * N + j = (N + 1 - (k + 1 - j)) + (N + 1) * k := by
+      rw [Nat.succ_mul, Nat.mul_comm (N + 1) k, Nat.mul_succ]
+      omega
+    rw [e, Nat.add_mul_mod_self_left, Nat.mod_eq_of_lt (by omega)]
+    omega
+
+/-- entries of the adjacency matrix of an inter-system recurrence network: no self-loops, and off
+the diagonal the four blocks `R_x`, `CR_xy`, `CR_xyᵀ`, `R_y` -/
+theorem isrn_adjacency_entries (Rx Cxy Ry : Nat → Nat → Bool) (Nx N : Nat) (i j : Nat)
+    (hi : i < N) (hj : j < N) :
+    CrossISRN.adjacency Rx Cxy Ry Nx N i j
+      = (if i = j then false
+         else if i < Nx then (if j < Nx then Rx i j else Cxy i (j - Nx))
+         else (if j < Nx then Cxy j (i - Nx) else Ry (i - Nx) (j - Nx))) := by
+  unfold CrossISRN.adjacency zeroFlatStride isrm
+  simp only [flat_stride_is_diagonal N i j hi hj, hi, hj, and_self, if_true]
+
+/-- the network is loop-free (every node number, also out of range) -/
+theorem isrn_loop_free (Rx Cxy Ry : Nat → Nat → Bool) (Nx N : Nat) (a : Nat) :
+    CrossISRN.adjacency Rx Cxy Ry Nx N a a = false := by
+  by_cases h : a < N
+  · rw [isrn_adjacency_entries Rx Cxy Ry Nx N a a h h]
+    simp
+  · unfold CrossISRN.adjacency zeroFlatStride isrm
+    simp [h]
+
+/-- … and undirected whenever the two recurrence matrices are symmetric (the two off-diagonal
+blocks are transposes of each other by construction) -/
+theorem isrn_symm (Rx Cxy Ry : Nat → Nat → Bool) (hx : Symm Rx) (hy : Symm Ry) (Nx N : Nat) :
+    Symm (CrossISRN.adjacency Rx Cxy Ry Nx N) := by
+  intro a b
+  by_cases ha : a < N
+  · by_cases hb : b < N
+    · rw [isrn_adjacency_entries Rx Cxy Ry Nx N a b ha hb,
+        isrn_adjacency_entries Rx Cxy Ry Nx N b a hb ha]
+      by_cases hab : a = b
+      · subst hab; rfl
+      · have hba : ¬ b = a := fun h => hab h.symm
+        simp only [hab, hba, if_false]
+        by_cases h1 : a < Nx <;> by_cases h2 : b < Nx <;> simp [h1, h2, hx a b, hy (a - Nx) (b - Nx)]
+    · unfold CrossISRN.adjacency zeroFlatStride isrm
+      simp [hb]
+  · unfold CrossISRN.adjacency zeroFlatStride isrm
+    simp [ha]
+
+/-- **the cross block of the assembled network is the cross recurrence matrix**:
+`cross_adjacency(x, y)[i][j] = CR_xy[i, j]`, and inside `x` / `y` the recurrence matrices off the
+diagonal -/
+theorem isrn_blocks (Rx Cxy Ry : Nat → Nat → Bool) (Nx N : Nat) (h : Nx ≤ N) :
+    blockN (CrossISRN.adjacency Rx Cxy Ry Nx N) (nodes1 Nx) (nodes2 Nx N)
+        = (List.range Nx).map (fun i => (List.range (N - Nx)).map fun j => b2n (Cxy i j))
+    ∧ (∀ i j, i < Nx → j < Nx → i ≠ j → CrossISRN.adjacency Rx Cxy Ry Nx N i j = Rx i j)
+    ∧ (∀ i j, i < N - Nx → j < N - Nx → i ≠ j →
+        CrossISRN.adjacency Rx Cxy Ry Nx N (Nx + i) (Nx + j) = Ry i j) := by
+  refine ⟨?_, ?_, ?_⟩
+  · unfold blockN block nodes1 nodes2
+    apply List.map_congr_left
+    intro i hi
+    have hi' : i < Nx := List.mem_range.mp hi
+    rw [List.range'_eq_map_range, List.map_map]
+    apply List.map_congr_left
+    intro j hj
+    have hj' : j < N - Nx := List.mem_range.mp hj
+    simp only [Function.comp]
+    rw [isrn_adjacency_entries Rx Cxy Ry Nx N i (Nx + j) (by omega) (by omega)]
+    have h1 : ¬ i = Nx + j := by omega
+    have h2 : ¬ Nx + j < Nx := by omega
+    simp [h1, hi', h2]
+  · intro i j hi hj hij
+    rw [isrn_adjacency_entries Rx Cxy Ry Nx N i j (by omega) (by omega)]
+    simp [hij, hi, hj]
+  · intro i j hi hj hij
+    rw [isrn_adjacency_entries Rx Cxy Ry Nx N (Nx + i) (Nx + j) (by omega) (by omega)]
+    have h2 : ¬ Nx + i < Nx := by omega
+    have h3 : ¬ Nx + j < Nx := by omega
+    simp [h2, h3, hij]
+
+/-- **`cross_link_density(x, y)` of the assembled network is the cross recurrence rate**
+`float(CR.sum()) / (N_x · N_y)` of the cross recurrence plot -/
+theorem isrn_cross_recurrence_rate (Rx Cxy Ry : Nat → Nat → Bool) (Nx N : Nat) (h : Nx ≤ N) :
+    Cross.crossLinkDensity (CrossISRN.adjacency Rx Cxy Ry Nx N) (nodes1 Nx) (nodes2 Nx N)
+      = crossRecurrenceRate Cxy Nx (N - Nx) := by
+  unfold Cross.crossLinkDensity numberCrossLinks crossRecurrenceRate
+  rw [(isrn_blocks Rx Cxy Ry Nx N h).1, nodes1_length, nodes2_length]
+  simp only [rowSums, List.map_map, Function.comp_def]
+
+/-- **the links of an inter-system recurrence network** are the recurrences within `x`, within `y`
+and the cross recurrences: the hypotheses of `n_links_decomposition` (undirected, loop-free) are
+theorems for the assembled matrix -/
+theorem isrn_n_links (Rx Cxy Ry : Nat → Nat → Bool) (hx : Symm Rx) (hy : Symm Ry) (Nx N : Nat)
+    (h : Nx ≤ N) :
+    netNLinks false N (CrossISRN.adjacency Rx Cxy Ry Nx N)
+      = numberInternalLinks false (CrossISRN.adjacency Rx Cxy Ry Nx N) (nodes1 Nx)
+        + numberInternalLinks false (CrossISRN.adjacency Rx Cxy Ry Nx N) (nodes2 Nx N)
+        + ((List.range Nx).map fun i => ((List.range (N - Nx)).map fun j => b2n (Cxy i j)).sum).sum := by
+  rw [n_links_decomposition _ (isrn_symm Rx Cxy Ry hx hy Nx N) (isrn_loop_free Rx Cxy Ry Nx N) N _ _
+    (ccn_layers_perm Nx N h)]
+  congr 1
+  unfold numberCrossLinks
+  rw [(isrn_blocks Rx Cxy Ry Nx N h).1]
+  simp only [rowSums, List.map_map, Function.comp_def]
+
+example : blockN (CrossISRN.adjacency (fun _ _ => true) (fun i j => i == j) (fun _ _ => true) 2 5)
+    (List.range 5) (List.range 5)
+    = [[0, 1, 1, 0, 0], [1, 0, 0, 1, 0], [1, 0, 0, 1, 1], [0, 1, 1, 0, 1], [0, 0, 1, 1, 0]] := by
+  decide
+
+
+open Pyunicorn.Generated in
+/-- **about the regenerated source of `InterSystemRecurrenceNetwork`**: `N = N_x + N_y`; the matrix
+starts as zeros and receives `R_x`, `CR_xy`, `CR_xy.transpose()`, `R_y` in the four slices
+`[:N_x, :N_x]`, `[:N_x, N_x:N]`, `[N_x:N, :N_x]`, `[N_x:N, N_x:N]` (`isrm`); both setters remove
+the self-loops with `ISRM.flat[::self.N + 1] = 0` (`zeroFlatStride`, `flat_stride_is_diagonal`);
+the network is constructed undirected from that matrix; the four wrappers route
+`np.arange(N_x)` / `np.arange(N_x, N)` (`nodes1`, `nodes2`) in the orders `xy` / `yx`; the cross
+recurrence rate is `float(CR.sum()) / (N · M)` (`crossRecurrenceRate`). -/
+theorem isrn_as_modelled :
+    StructC11.isrnFacts = [
+  ("__init__.self.N_x", "self.x_embedded.shape[0]"),
+  ("__init__.self.N_y", "self.y_embedded.shape[0]"),
+  ("__init__.self.N", "self.N_x + self.N_y"),
+  ("__init__.InteractingNetworks.__init__", "self, adjacency=ISRM, directed=False, silence_level=self.silence_level"),
+  ("inter_system_recurrence_matrix.N", "self.N"),
+  ("inter_system_recurrence_matrix.N_x", "self.N_x"),
+  ("inter_system_recurrence_matrix.ISRM", "np.zeros((N, N))"),
+  ("inter_system_recurrence_matrix.ISRM[:N_x, :N_x]", "self.rp_x.recurrence_matrix()"),
+  ("inter_system_recurrence_matrix.ISRM[:N_x, N_x:N]", "self.crp_xy.recurrence_matrix()"),
+  ("inter_system_recurrence_matrix.ISRM[N_x:N, :N_x]", "self.crp_xy.recurrence_matrix().transpose()"),
+  ("inter_system_recurrence_matrix.ISRM[N_x:N, N_x:N]", "self.rp_y.recurrence_matrix()"),
+  ("inter_system_recurrence_matrix.return", "ISRM"),
+  ("internal_recurrence_rates.return", "(self.rp_x.recurrence_rate(), self.rp_y.recurrence_rate())"),
+  ("cross_recurrence_rate.return", "self.crp_xy.cross_recurrence_rate()"),
+  ("cross_global_clustering_xy.return", "self.cross_global_clustering(np.arange(self.N_x), np.arange(self.N_x, self.N))"),
+  ("cross_global_clustering_yx.return", "self.cross_global_clustering(np.arange(self.N_x, self.N), np.arange(self.N_x))"),
+  ("cross_transitivity_xy.return", "self.cross_transitivity(np.arange(self.N_x), np.arange(self.N_x, self.N))"),
+  ("cross_transitivity_yx.return", "self.cross_transitivity(np.arange(self.N_x, self.N), np.arange(self.N_x))"),
+  ("set_fixed_threshold.ISRM", "self.inter_system_recurrence_matrix()"),
+  ("set_fixed_threshold.ISRM.flat[::self.N + 1]", "0"),
+  ("set_fixed_threshold.return", "ISRM"),
+  ("set_fixed_recurrence_rate.ISRM", "self.inter_system_recurrence_matrix()"),
+  ("set_fixed_recurrence_rate.ISRM.flat[::self.N + 1]", "0"),
+  ("set_fixed_recurrence_rate.return", "ISRM"),
+  ("CrossRecurrencePlot.cross_recurrence_rate.return", "float(self.CR.sum()) / (self.N * self.M)")] := by
+  decide +kernel
+
+end ISRN
 
 end Pyunicorn.Cross
